@@ -9,5 +9,5 @@ Do(c) == /\ c \in Calls(S)
             \/ e \in {"err", "any"} /\ c[1] = "xopen" /\ S' = S
 Next == \E c \in AllCalls : Do(c)
 Spec == Init /\ [][Next]_S
-TypeOk == S.pos \in {"b", "m", "e", "x"} /\ S.mode \in 0..2 /\ (S.open \/ S = S0)
+TypeOk == S.pos \in {"b", "m", "e", "x"} /\ S.mode \in 0..2 /\ (S.open \/ [S EXCEPT !.made = FALSE] = S0)
 =============================================================================
